@@ -303,6 +303,8 @@ SEEDS9 = {
     "C12-14": ("C12", ["C12", "C17"], "config.NewLog trims origin, key and URL before deriving the ID; AsLogMap and the bastion handler do not", "a configured origin with leading or trailing white space"),
     "C14-13": ("C14", ["C14", "C18"], "sumdb feeder: tileReader kept per FeedLog with a SaveTiles cache keyed by (tile height, index) - the level is not in the key", "one feeder lifetime: a proof reading the complete level-0 tile 0 (e.g. 255->256), then one reading the complete level-1 tile 0 (->65536)"),
     "C14-14": ("C14", ["C14", "C04", "C08"], "witness.signChkpt drops signers whose (name, key hash) already appears on the incoming note", "a log-signed checkpoint carrying a line with exactly the witness's key name and hash that is not valid for this body (e.g. a republished old cosignature)"),
+    "C06-13": ("C06", ["C06", "C05", "C07"], "witness: identical resubmission in the same second answered from a memo of the last cosignature that is written BEFORE write.Set (dropped again if Set fails)", "two overlapping requests with the same bytes X: A has signed X but not committed, B (old size = X.size) is acknowledged without any storage operation, then a kill before A's commit"),
+    "C06-14": ("C06", ["C05", "C06", "C01"], "sql: WriteOps without a transaction; Set is a compare-and-swap UPDATE for known logs but INSERT OR REPLACE for a first write", "two overlapping first-use submissions for one log (both read 'not found'); the larger is acknowledged, then overwritten by the smaller"),
 }
 SEEDS2.update(SEEDS9)
 ROUND9 = {'C01', 'C02', 'C03', 'C04', 'C05', 'C07', 'C08', 'C09', 'C10', 'C13', 'C15', 'C18'}
